@@ -124,11 +124,14 @@ StartAdd(h, parts, op) ==
 StartCompact(h, f, l, op) ==
   /\ Room
   /\ 1 <= f /\ f < l /\ l <= Len(stack[h])
-  /\ (op = "compactall") = (f = 1 /\ l = Len(stack[h]))
+  /\ op = "compactrange" /\ ~(f = 1 /\ l = Len(stack[h]))
   /\ Start(h, op, [L0 EXCEPT !.op = op, !.first = f, !.last = l], "k_lock", [op |-> op, txn |-> 0, marks |-> {}])
   /\ UNCHANGED <<nextId, nextTxn>>
 
-StartCompactAll(h) == StartCompact(h, 1, Len(stack[h]), "compactall")
+StartCompactAll(h) ==     \* CompactAll = compactRange(0, len - 1); spelled out (not via StartCompact) so that TLC labels the transition with h
+  /\ Room /\ Len(stack[h]) >= 2
+  /\ Start(h, "compactall", [L0 EXCEPT !.op = "compactall", !.first = 1, !.last = Len(stack[h])], "k_lock", [op |-> "compactall", txn |-> 0, marks |-> {}])
+  /\ UNCHANGED <<nextId, nextTxn>>
 
 StartOther(h, op, firstpc, l) ==
   /\ Start(h, op, l, firstpc, [op |-> op, txn |-> 0, marks |-> {}])
